@@ -106,6 +106,35 @@ def enc_tree(n: Any, refs: Optional[Dict[int, int]] = None) -> str:
     return "(" + " ".join(parts) + ")"
 
 
+def enc_qattrs(n: Any) -> str:
+    """The query metadata hung on the nodes of a query AST (what lookup_query_metadata reads): for every node that has a
+    `_q_metadata` attribute, its pre-order position and the sorted key/value pairs.  Other non-field attributes are not
+    looked at (nothing public reads them off a derived stream)."""
+    out: List[str] = []
+    cnt = [0]
+
+    def rec(x):
+        if isinstance(x, list):
+            for y in x:
+                rec(y)
+            return
+        if not isinstance(x, ast.AST):
+            return
+        i = cnt[0]
+        cnt[0] += 1
+        q = getattr(x, "_q_metadata", None)
+        if q is not None:
+            try:
+                body = " ".join(sorted("(%s %s)" % (hx(str(k)), enc_val(v)) for k, v in q.items()))
+            except Exception:  # noqa
+                body = hx(repr(q))
+            out.append("(%d %s)" % (i, body))
+        for _f, v in ast.iter_fields(x):
+            rec(v)
+    rec(n)
+    return " ".join(out)
+
+
 def enc_val(v: Any) -> str:
     """a query-metadata value as a model atom (injective on the value domain the generators use)"""
     if type(v) is str:
@@ -249,6 +278,8 @@ class Runner:
         self.resolved: List[dict] = []       # the history with stream/call choices made concrete
         self.obs_steps: List[List[tuple]] = []   # per model op: observation of every live stream
         self.log_len_steps: List[int] = []
+        self.qa_steps: List[Optional[List[str]]] = []   # per model op: enc_qattrs of every live stream ("qattrs" in focus)
+        self.qmd_targets: List[str] = []     # per QMetaData call: what its target stream looked like (input distribution)
         self.shape_errors: List[str] = []
         self.RecDataset = _dataset_class()
         _W = self
@@ -299,6 +330,8 @@ class Runner:
             self.obs_steps.append([self.observe_stream(s) for s in self.streams])
         else:
             self.obs_steps.append([])
+        self.qa_steps.append([enc_qattrs(s.query_ast) for s in self.streams]
+                             if (self.observe_all and "qattrs" in self.focus) else None)
         self.log_len_steps.append(len(self.glog))
 
     def _emit(self, op_sx: str, out: tuple):
@@ -413,6 +446,11 @@ class Runner:
             self._emit("(md %d %s)" % (si, enc_tree(lit_ast(o["val"]))), out)
         elif kind == "qmd":
             self.resolved.append(o)
+            top = ps.query_ast
+            others = sum(1 for j, t in enumerate(self.streams) if j != si and any(x is top for x in ast.walk(t.query_ast)))
+            self.qmd_targets.append(("top-with-qmd" if hasattr(top, "_q_metadata") else "bare-top")
+                                    + ("/dataset" if any(ps is d for d in self.datasets) else "/derived")
+                                    + ("/shared-with-%s-streams" % ("0" if others == 0 else "1" if others == 1 else ">=2")))
             try:
                 s = ps.QMetaData(dict(o["kv"]))
                 out = self._new_stream(s)
@@ -735,16 +773,101 @@ def compare(runner: Runner, answer: str) -> Diff:
 
 # ---------------------------------------------------------------- oracles (implementation only)
 
+def _looks_txt(looks) -> str:
+    return str([unhx(x.split()[1][:-1]) for x in looks])
+
+
 def oracle_immutable(r: Runner) -> Optional[str]:
-    """C11: every live stream's dump and item type equal its first observation, after every step"""
+    """C11: what is observed on every live stream equals its first observation, after every step: the dump of the query AST,
+    the item type, and the query metadata the AST carries - both as stored on its nodes (`_q_metadata`, the state QMetaData's
+    node copy protects) and as read back by lookup_query_metadata for every key the history uses."""
     first: Dict[int, tuple] = {}
     for i, obs in enumerate(r.obs_steps):
-        for sid, (dump, ty, _l, _r) in enumerate(obs):
+        qa = r.qa_steps[i] if i < len(r.qa_steps) else None
+        for sid, (dump, ty, looks, _r) in enumerate(obs):
+            q = qa[sid] if qa is not None else None
             if sid not in first:
-                first[sid] = (dump, ty, i)
-            elif first[sid][:2] != (dump, ty):
-                return ("stream %d (created at step %d) changed at step %d %s: dump %s -> %s, item type %s -> %s"
-                        % (sid, first[sid][2], i, r.model_ops[i][:60], first[sid][0][:8], dump[:8], first[sid][1], ty))
+                first[sid] = (dump, ty, looks, q, i)
+                continue
+            d0, t0, l0, q0, i0 = first[sid]
+            head = "stream %d (created at step %d) changed at step %d %s: " % (sid, i0, i, r.model_ops[i][:60])
+            if (d0, t0) != (dump, ty):
+                return head + "dump %s -> %s, item type %s -> %s" % (str(d0)[:8], str(dump)[:8], t0, ty)
+            if looks is not None and l0 is not None and l0 != looks:
+                return head + "lookup_query_metadata for keys %s gave %s, now gives %s" % (r.keys, _looks_txt(l0), _looks_txt(looks))
+            if q is not None and q0 is not None and q0 != q:
+                return head + "query metadata on the nodes of its query AST (pre-order position, pairs) was [%s], now is [%s]" % (
+                    _qa_txt(q0), _qa_txt(q))
+    return None
+
+
+def _qa_txt(q: str) -> str:
+    try:
+        t = sx_parse("(" + q + ")")
+        return "; ".join("node %s: {%s}" % (e[0], ", ".join("%s: %s" % (unhx(kv[0]), unhx(kv[1][1])) for kv in e[1:])) for e in t)
+    except Exception:  # noqa
+        return q[:200]
+
+
+def _mentions_stream(src: str) -> bool:
+    return "S" in src and any(isinstance(n, ast.Name) and n.id[:1] == "S" and n.id[1:].isdigit() for n in ast.walk(ast.parse(src)))
+
+
+_PATH_CACHE: Dict[str, tuple] = {}
+
+
+def oracle_independent(r: Runner) -> Optional[str]:
+    """C11, last sentence (streams derived from a common parent are independent of each other): what is observed on a stream
+    at the end of the history equals what is observed on the last stream of the history made of the operations on its own
+    derivation path only - no sibling, no execution, no other dataset.  Streams whose AST embeds another stream's AST object
+    (`new`/prebuilt lambdas naming S<k>) are skipped: their path is not a chain."""
+    import json
+
+    if not r.obs_steps or not r.obs_steps[-1]:
+        return None
+    made: List[Optional[dict]] = []      # per stream: the operation that created it
+    k = 0
+    for o in r.resolved:
+        out = r.outs[k]
+        k += 2 if (o["op"] == "val" and out[0] == "C") else 1
+        if out[0] == "S":
+            made.append(o)
+    if len(made) != len(r.streams):
+        return None
+    last = r.obs_steps[-1]
+    qa = r.qa_steps[-1] if r.qa_steps else None
+    for sid in range(len(r.streams)):
+        path = []
+        j: Optional[int] = sid
+        ok = True
+        while j is not None:
+            o = made[j]
+            if o["op"] == "new" or (o.get("prebuilt") and _mentions_stream(o["lam"])):
+                ok = False
+                break
+            path.append(o)
+            j = None if o["op"] == "ds" else o["s"]
+        if not ok or len(path) == len(r.streams):
+            continue            # the whole history is this stream's path: nothing to be independent of
+        path.reverse()
+        h = [dict(o, s=i - 1) if o["op"] != "ds" else dict(o) for i, o in enumerate(path)]
+        key = json.dumps([h, r.keys, list(r.focus)], sort_keys=True)
+        want = _PATH_CACHE.get(key)
+        if want is None:
+            r2 = Runner(h, keys=r.keys, focus=r.focus).run()
+            if len(r2.streams) != len(h):
+                continue
+            want = (r2.obs_steps[-1][-1][:3], r2.qa_steps[-1][-1] if r2.qa_steps[-1] is not None else None)
+            if len(_PATH_CACHE) < 200000:
+                _PATH_CACHE[key] = want
+        got = (last[sid][:3], qa[sid] if qa is not None else None)
+        if got != want:
+            (d0, t0, l0), q0 = want
+            (d1, t1, l1), q1 = got
+            what = ("dump %s vs %s, item type %s vs %s" % (str(d0)[:8], str(d1)[:8], t0, t1) if (d0, t0) != (d1, t1) else
+                    "lookup_query_metadata for keys %s gives %s vs %s" % (r.keys, _looks_txt(l0), _looks_txt(l1)) if l0 != l1 else
+                    "query metadata on the nodes [%s] vs [%s]" % (_qa_txt(q0 or ""), _qa_txt(q1 or "")))
+            return ("stream %d built on its own (path %s) and inside the history differ: %s" % (sid, json.dumps(h), what))
     return None
 
 
@@ -1049,9 +1172,9 @@ def minimise(history: List[dict], fails, budget: int = 80) -> List[dict]:
     return h
 
 
-FOCUS = {"C11": ("dump",), "C12": ("root",), "C16": ("lookup",)}
+FOCUS = {"C11": ("dump", "lookup", "qattrs"), "C12": ("root",), "C16": ("lookup",)}
 ORACLES = {
-    "C11": [("immutable", oracle_immutable), ("item-type", oracle_types)],
+    "C11": [("immutable", oracle_immutable), ("item-type", oracle_types), ("independent", oracle_independent)],
     "C12": [("routing", oracle_routing)],
     "C16": [("last-writer", oracle_qmd), ("invisible", oracle_invisible)],
 }
@@ -1083,6 +1206,8 @@ def check_histories(ctx, prop: str, histories: List[List[dict]], label: str):
             ctx.count("ops", o["op"] + (":" + o["kind"] if o["op"] == "der" else ""))
         for o in r.outs:
             ctx.count("outcomes", o[0] + (":" + str(o[1]) if o[0] == "E" else ""))
+        for t in r.qmd_targets:
+            ctx.count("qmd_target", t)
         key = md5(json.dumps(r.resolved, sort_keys=True))
         if len(r.streams) >= 3 and any(o["op"] in ("val", "vs", "qmd") for o in r.resolved):
             ctx.distinct.add(key)
